@@ -75,6 +75,69 @@ CLAIMED = {
              "its tables are validated by the exhaustive sweep, not proved); reference list of encodings per identifier.",
         technique="Coq proof (loop invariant, UTF-8 arithmetic via lia, vm_compute over generated tables) + exhaustive finite sweep on the implementation",
         design="4 C14"),
+    "C06": dict(
+        text="Theorems over the model of column.rs / package.rs: the 16-bit type word round-trips for every storable type and flag "
+             "combination (finite sweep over all widths 0..255 lifted to all columns), every category name parses back to its "
+             "category, one _Validation row carries nullable/range/foreign key/category/enumeration back, and the whole catalog "
+             "path (columns_rows + validation_rows -> read_columns_rows, read_validation_rows, sort_specs, build_columns, "
+             "build_tables of pkg_open) returns exactly the column list given, in order, for EVERY column list create_table "
+             "accepts (accepted_cols_storable: the acceptance checks imply the round-trip hypotheses); >32 columns, no key, "
+             "width>255, empty or ';' enumeration values are refused with the package unchanged.  Masks and limits are "
+             "regenerated from the source.  Correspondence: all 65,536 type words through the hook, all flag combinations x "
+             "15 widths, 26 categories, random column lists, observed through get_table().columns() before and after reopen.  "
+             "Persistence of the catalog rows themselves rests on the row/pool round trips (C01).",
+        note="Trusted: Coq kernel, translator, extraction, harness; cfb modelled as a name->bytes map.",
+        technique="Coq proof (finite sweep by vm_compute lifted with forallb_forall + structural induction over column lists) + correspondence",
+        design="4 C06"),
+    "C10": dict(
+        text="Theorems over the model of propset.rs / summary.rs: ps_read (ps_write ps) = ps for every well-formed UTF-8 property "
+             "set of any size; the written bytes are a well-formed property set (every offset 4-aligned and pointing at the bytes "
+             "written for that property, section size exact, each value a multiple of 4 bytes - for ANY encoder); set/get/clear "
+             "laws with the frame; the code page is the one last set for all 26 pages (65001 stored as -535) with no Debug panic; "
+             "architecture and languages are independent halves of the template.  Creation times are C18.  Non-UTF-8 pages: the "
+             "theorem's hypothesis is representability (ps_cp = UTF-8 in the model); all 26 pages are exercised on the "
+             "implementation with strings from each repertoire, getters compared before/after reopen and the raw stream parsed by "
+             "an independent property-set parser.  One known finding (architecture text containing ';').",
+        note="Trusted: Coq kernel, translator (PROPSET_* flags, property ids), extraction, harness, tools/psdec.py (independent parser).",
+        technique="Coq proof (byte-level codec round trip by induction over the property list, lia) + correspondence + independent parser",
+        design="4 C10"),
+    "C11": dict(
+        text="Theorems: the stream-name codec round-trips and is injective on every accepted name; under the container's "
+             "case-insensitive comparison two accepted names collide only if identical; an accepted stream name never resolves "
+             "to a table stream (incl. _StringPool/_StringData), summary information or a signature entry; the container is a "
+             "finite map and write/read/remove/has refine a map from names to the bytes last written, with the frame (other "
+             "names, tables, pool, summary untouched); streams() lists exactly the live names; rejected calls change nothing; "
+             "no stream call panics for ANY string; remove_digital_signature removes exactly the two signature entries.  "
+             "Packing ranges and reserved characters are regenerated from streamname.rs.  Correspondence: single names over a "
+             "150-character critical set, pairs, boundary lengths 29..33 units, histories interleaved with table operations and "
+             "reopen, contents across the 4096-byte mini-stream cutoff, signature streams added with the cfb crate.",
+        note="Trusted: Coq kernel, translator, extraction, harness; cfb modelled as a name->bytes map whose comparison upper-cases "
+             "ASCII only (non-ASCII case pairs are outside the model and excluded by the property's own wording).",
+        technique="Coq proof (induction over names / entry lists; finite checks by vm_compute) + correspondence",
+        design="4 C11"),
+    "C12": dict(
+        text="Theorems over the model of Select::exec / Join::exec: base-table select = filter by the condition then project in the "
+             "requested order; join_rows = the nested-loop comprehension (inner: pairs satisfying ON in left-major order; left: "
+             "plus each unmatched left row once, null padded); result columns named table.column for named inputs, right side of a "
+             "left join nullable; every yielded row has one cell per result column; SELECT/JOIN NEVER panic for any container, "
+             "pool, table map and query tree in both profiles (mutual induction over the select/join tree); unknown table or "
+             "column in a projection, filter or ON condition => error.  Correspondence: a structured family of ~70 trees x table "
+             "contents of 0-3 rows incl. NULL keys, self joins, joins of joins, anonymous sub-selects, plus random trees; oracle = "
+             "independent nested-loop evaluator.",
+        note="Trusted: Coq kernel, extraction, harness, the Python reference evaluator.",
+        technique="Coq proof (mutual structural induction over query trees, list lemmas) + correspondence",
+        design="4 C12"),
+    "C16": dict(
+        text="Theorems: pkg_open returns a package whose container is the one opened, with no finisher and no modified flag; "
+             "closing such a package (flush = into_inner = drop on an infallible medium) returns the identical container, and a "
+             "second close too.  Read operations return no package in the model (they cannot change it by construction); that "
+             "modelling step and the sector level of cfb are tied to the code by the counting medium: after random histories "
+             "the saved bytes are opened on a fresh medium, every read operation is used, the session is closed in each of the "
+             "three ways: 0 write calls and identical bytes required.  Partial: the no-write claim below the stream level (cfb) "
+             "is observed, not proved.",
+        note="Trusted: Coq kernel, extraction, harness (counting Read+Write+Seek medium).",
+        technique="Coq proof (case analysis on the package state machine) + write-counting correspondence",
+        design="4 C16"),
 }
 REASON_PENDING = "check not built yet in this round; see DESIGN.md section 4 for the plan"
 
